@@ -17,7 +17,8 @@
 (*  Deliver  {dir, off, len, eq}       the bridge wrote len bytes to the receiving end of dir;    *)
 (*                                     off = the receiver's count so far, eq = they equal the     *)
 (*                                     sender's stream at [off, off+len)                          *)
-(*  Env      {a}                       arm | glitch | replace | closeold (script bookkeeping)     *)
+(*  Env      {a, clean}                arm | glitch | replace | closeold (script bookkeeping);     *)
+(*                                     replace carries clean (see TrEnv)                          *)
 (*  CloseEnd {e, kind}                 close: end e closed its connection; error: it failed;      *)
 (*                                     short: it failed inside a Write after taking part of it;   *)
 (*                                     bridge: a third party called Bridge.Close() (e = "-")      *)
@@ -45,8 +46,9 @@ VARIABLES cfg,        \* the Cfg record of the current trace (or Nil)
           ended,      \* "none" or the kind of the first CloseEnd
           ender,      \* the end of the first CloseEnd
           tail,       \* TRUE while clause (b) is still demanded for `ender`
-          stale       \* the source was replaced and the replaced connection is still open
-vars == <<l, viol, cfg, sent, delivered, attached, ended, ender, tail, stale>>
+          stale,      \* the source was replaced and the replaced connection is still open
+          void        \* directions for which nothing is demanded any more (unclean source replacement)
+vars == <<l, viol, cfg, sent, delivered, attached, ended, ender, tail, stale, void>>
 
 Dirs == {"s2t", "t2s"}
 Nil == [lim |-> "?", mode |-> "?", via |-> "?"]
@@ -55,14 +57,17 @@ OutOf(e) == IF e = "S" THEN "s2t" ELSE "t2s"
 Other(e) == IF e = "S" THEN "T" ELSE "S"
 
 Init == /\ l = 1 /\ viol = {} /\ cfg = Nil /\ sent = Zero /\ delivered = Zero /\ attached = FALSE
-        /\ ended = "none" /\ ender = "-" /\ tail = FALSE /\ stale = FALSE
+        /\ ended = "none" /\ ender = "-" /\ tail = FALSE /\ stale = FALSE /\ void = {}
 
 Add(c, d) == viol' = viol \cup {V(c, d)}
-Ctx == "lim=" \o cfg.lim \o (IF stale THEN ":stale-source" ELSE "")
+Ctx == "lim=" \o cfg.lim
+\* violations that can only be told apart from others by the replaced, still open source connection
+\* carry that fact in front (so that one known-finding key can name them)
+St(x) == IF stale THEN "stale-source:" \o x ELSE x
 
 TrCfg == /\ Is("Cfg") /\ l' = l + 1
          /\ cfg' = [lim |-> Ev.lim, mode |-> Ev.mode, via |-> Ev.via]
-         /\ UNCHANGED <<viol, sent, delivered, attached, ended, ender, tail, stale>>
+         /\ UNCHANGED <<viol, sent, delivered, attached, ended, ender, tail, stale, void>>
 
 TrSend == /\ Is("Send") /\ l' = l + 1
           /\ sent' = [sent EXCEPT ![Ev.dir] = @ + Ev.n]
@@ -71,21 +76,28 @@ TrSend == /\ Is("Send") /\ l' = l + 1
           /\ UNCHANGED <<viol, cfg, delivered, attached, ended, ender, stale>>
 
 TrAttach == /\ Is("Attach") /\ l' = l + 1 /\ attached' = TRUE
-            /\ UNCHANGED <<viol, cfg, sent, delivered, ended, ender, tail, stale>>
+            /\ UNCHANGED <<viol, cfg, sent, delivered, ended, ender, tail, stale, void>>
 
 TrDeliver ==
   /\ Is("Deliver") /\ l' = l + 1
   /\ delivered' = [delivered EXCEPT ![Ev.dir] = @ + Ev.len]
-  /\ IF ~attached THEN Add("Prefix", "before-attach:" \o Ev.dir \o ":" \o Ctx)
+  /\ IF Ev.dir \in void THEN viol' = viol
+     ELSE IF ~attached THEN Add("Prefix", "before-attach:" \o Ev.dir \o ":" \o Ctx)
      ELSE IF Ev.off # delivered[Ev.dir] THEN Add("Prefix", "gap-or-duplicate:" \o Ev.dir \o ":" \o Ctx)
      ELSE IF ~Ev.eq THEN Add("Prefix", "corrupt:" \o Ev.dir \o ":" \o Ctx)
      ELSE IF delivered[Ev.dir] + Ev.len > sent[Ev.dir] THEN Add("Prefix", "beyond-sent:" \o Ev.dir \o ":" \o Ctx)
      ELSE viol' = viol
-  /\ UNCHANGED <<cfg, sent, attached, ended, ender, tail, stale>>
+  /\ UNCHANGED <<cfg, sent, attached, ended, ender, tail, stale, void>>
 
+\* replace: the source client re-opened the tunnel on a new connection.  The statement does not speak
+\* about reconnects; the judge keeps demanding the pipe clauses for the logical source end only after a
+\* clean handover (clean = the bridge was already copying, or nothing unread was left on the old
+\* connection); otherwise nothing is demanded for s2t any more.
 TrEnv == /\ Is("Env") /\ l' = l + 1
          /\ stale' = (IF Ev.a = "replace" THEN TRUE ELSE IF Ev.a = "closeold" THEN FALSE ELSE stale)
-         /\ UNCHANGED <<viol, cfg, sent, delivered, attached, ended, ender, tail>>
+         /\ void' = (IF Ev.a = "replace" /\ ~Ev.clean THEN void \cup {"s2t"} ELSE void)
+         /\ tail' = (tail /\ Ev.a # "replace")
+         /\ UNCHANGED <<viol, cfg, sent, delivered, attached, ended, ender>>
 
 TrCloseEnd ==
   /\ Is("CloseEnd") /\ l' = l + 1
@@ -95,17 +107,17 @@ TrCloseEnd ==
           /\ tail' = (Ev.kind = "close" /\ ~stale /\ delivered[OutOf(Other(Ev.e))] = sent[OutOf(Other(Ev.e))])
      ELSE /\ ended' = ended /\ ender' = ender
           /\ tail' = FALSE                       \* a second end closed or failed
-  /\ UNCHANGED <<viol, cfg, sent, delivered, attached, stale>>
+  /\ UNCHANGED <<viol, cfg, sent, delivered, attached, stale, void>>
 
-\* clause (a); the judge recounts, it does not rely on the driver's flag alone
+\* clause (a); the judge recounts, it does not rely on the driver's flag
+Short == {d \in Dirs \ void : delivered[d] # sent[d]}
 TrDrain ==
   /\ Is("Drain") /\ l' = l + 1
-  /\ IF ended = "none" /\ attached /\ ~stale /\ (~Ev.ok \/ delivered # sent)
+  /\ IF ended = "none" /\ attached /\ ~stale /\ Short # {}
      THEN Add("Complete", (IF Ev.ok THEN "miscounted" ELSE Ev.why) \o ":" \o
-                          (IF delivered["s2t"] # sent["s2t"] THEN "s2t" ELSE "") \o
-                          (IF delivered["t2s"] # sent["t2s"] THEN "t2s" ELSE "") \o ":" \o Ctx)
+                          (IF "s2t" \in Short THEN "s2t" ELSE "") \o (IF "t2s" \in Short THEN "t2s" ELSE "") \o ":" \o Ctx)
      ELSE viol' = viol
-  /\ UNCHANGED <<cfg, sent, delivered, attached, ended, ender, tail, stale>>
+  /\ UNCHANGED <<cfg, sent, delivered, attached, ended, ender, tail, stale, void>>
 
 Judged == ended \in {"close", "error", "short"}
 EndCtx == "end=" \o ender \o ":" \o ended \o ":" \o Ctx
@@ -113,33 +125,33 @@ EndCtx == "end=" \o ender \o ":" \o ended \o ":" \o Ctx
 TrClosure ==
   /\ Is("Closure") /\ l' = l + 1
   /\ IF Judged /\ attached /\ Ev.e = Other(ender) /\ ~Ev.seen
-     THEN Add("Closure", "not-observed:" \o EndCtx) ELSE viol' = viol
-  /\ UNCHANGED <<cfg, sent, delivered, attached, ended, ender, tail, stale>>
+     THEN Add("Closure", St("not-observed:" \o EndCtx)) ELSE viol' = viol
+  /\ UNCHANGED <<cfg, sent, delivered, attached, ended, ender, tail, stale, void>>
 
 TrForgot ==
   /\ Is("Forgot") /\ l' = l + 1
   /\ IF Judged /\ attached /\ Ev.n # 0
-     THEN Add("Forgotten", "still-registered:" \o EndCtx) ELSE viol' = viol
-  /\ UNCHANGED <<cfg, sent, delivered, attached, ended, ender, tail, stale>>
+     THEN Add("Forgotten", St("still-registered:" \o EndCtx)) ELSE viol' = viol
+  /\ UNCHANGED <<cfg, sent, delivered, attached, ended, ender, tail, stale, void>>
 
 \* the server process died with a panic in tunnox-core code while running this tunnel: every tunnel of
 \* the server is cut and nothing is "forgotten" in an orderly way
 TrCrash == /\ Is("Crash") /\ l' = l + 1
            /\ Add("Crash", "panic:" \o Ev.fn)
-           /\ UNCHANGED <<cfg, sent, delivered, attached, ended, ender, tail, stale>>
+           /\ UNCHANGED <<cfg, sent, delivered, attached, ended, ender, tail, stale, void>>
 
 TrCounters == /\ Is("Counters") /\ l' = l + 1
-              /\ UNCHANGED <<viol, cfg, sent, delivered, attached, ended, ender, tail, stale>>
+              /\ UNCHANGED <<viol, cfg, sent, delivered, attached, ended, ender, tail, stale, void>>
 
 \* clause (b) is settled at the end of the trace (the driver has waited for the tunnel to go away)
-TailViol == IF tail /\ attached /\ delivered[OutOf(ender)] # sent[OutOf(ender)]
+TailViol == IF tail /\ attached /\ OutOf(ender) \notin void /\ delivered[OutOf(ender)] # sent[OutOf(ender)]
             THEN {V("Complete", "graceful-tail-cut:" \o OutOf(ender) \o ":" \o Ctx)} ELSE {}
 
 TrEnd == /\ Is("End")
          /\ PrintT("VERDICT " \o ToJson([tr |-> Ev.tr, viol |-> SetToSeq(viol \cup TailViol)]))
          /\ l' = l + 1
          /\ viol' = {} /\ cfg' = Nil /\ sent' = Zero /\ delivered' = Zero /\ attached' = FALSE
-         /\ ended' = "none" /\ ender' = "-" /\ tail' = FALSE /\ stale' = FALSE
+         /\ ended' = "none" /\ ender' = "-" /\ tail' = FALSE /\ stale' = FALSE /\ void' = {}
 
 Next == TrCfg \/ TrSend \/ TrAttach \/ TrDeliver \/ TrEnv \/ TrCloseEnd \/ TrDrain
         \/ TrClosure \/ TrForgot \/ TrCounters \/ TrCrash \/ TrEnd
